@@ -2,6 +2,7 @@ package props
 
 import (
 	"fmt"
+	"math/big"
 	"reflect"
 	"sort"
 	"strings"
@@ -57,11 +58,11 @@ var c17LookupKeys = map[string][]string{
 	"int8":      {"-128", "-1", "0", "1", "127"},
 	"int16":     {"-32768", "-1", "0", "255", "32767"},
 	"int32":     {"-2147483648", "-1", "0", "65536", "2147483647"},
-	"int64":     {"-9223372036854775808", "-1", "0", "9007199254740993", "9223372036854775807"},
+	"int64":     {"-9223372036854775808", "-9223372036854775807", "9007199254740992", "9007199254740993", "9223372036854775807"},
 	"uint8":     {"0", "1", "127", "128", "255"},
 	"uint16":    {"0", "1", "32767", "32768", "65535"},
 	"uint32":    {"0", "1", "2147483647", "2147483648", "4294967295"},
-	"uint64":    {"0", "1", "9223372036854775807", "9223372036854775808", "18446744073709551615"},
+	"uint64":    {"0", "9223372036854775807", "9223372036854775808", "18446744073709551614", "18446744073709551615"},
 	"decimal64": {"-1.5", "0", "0.01", "1.5", "10"},
 	// values that only differ in the last fraction digits
 	"decimal64-9": {"2", "2.000000001", "2.000000002", "-2.000000001", "0.000000001"},
@@ -347,6 +348,7 @@ func c17RunLookup(c c17Case) eng.Result {
 		// whole-list walk: every entry exactly once
 		res.Evals++
 		var got []string
+		var walkedKeys []string
 		var werr error
 		frame, msg, panicked = eng.Recover(func() {
 			ls, err := b.Root().Find(c.KeyType)
@@ -362,6 +364,9 @@ func c17RunLookup(c c17Case) eng.Result {
 					return
 				}
 				got = append(got, model.CanonVal(v))
+				if len(it.Key) > 0 && it.Key[0] != nil {
+					walkedKeys = append(walkedKeys, model.Lex(it.Key[0]))
+				}
 			}
 			werr = err
 		})
@@ -378,6 +383,25 @@ func c17RunLookup(c c17Case) eng.Result {
 			sort.Strings(want)
 			if strings.Join(got, ",") != strings.Join(want, ",") {
 				report("walk-entries-differ", fmt.Sprintf("a walk over the list meets entries with payloads %v, the list holds %v", got, want), content, -1)
+			}
+			// a Go map has no order of its own: the library walks it in the order of its key comparison,
+			// which for numbers is numeric order at every width and for strings the order of their bytes
+			if strings.HasSuffix(c.Impl, "map") && len(walkedKeys) == len(content) {
+				for i := 1; i < len(walkedKeys); i++ {
+					a, aNum := new(big.Rat).SetString(walkedKeys[i-1])
+					b, bNum := new(big.Rat).SetString(walkedKeys[i])
+					ordered := true
+					switch {
+					case c.KeyType == "string":
+						ordered = walkedKeys[i-1] < walkedKeys[i]
+					case aNum && bNum && c.KeyType != "enum" && c.KeyType != "identityref" && c.KeyType != "union" && c.KeyType != "bits" && c.KeyType != "binary":
+						ordered = a.Cmp(b) < 0
+					}
+					if !ordered {
+						report("map-walk-out-of-key-order", fmt.Sprintf("walk meets keys %v", walkedKeys), content, -1)
+						break
+					}
+				}
 			}
 		}
 		after := snap()
